@@ -12,6 +12,7 @@ import (
 // symbolic attribute operations, Close. Reopen read-only and compare with the model. A session without
 // modification leaves the bytes identical.
 func verifSessionsScript(prefix, nsessions int) {
+	vrt.LoopBound(400000) // the no-op session compares the whole file byte by byte
 	fw, err := CreateForWrite("c10.h5", CreateTruncate)
 	vrt.AssertNoErr(err, "create-ok")
 	a, err := fw.CreateDataset("/a", Int32, []uint64{2})
